@@ -274,6 +274,11 @@ class Executor:
 
     def _binop(self, op, a, b, s) -> list[Res]:
         sides = []
+        hook = self.spec.globals.get("__binop__")
+        if hook is not None:
+            hr = hook(self, s, op, a, b)
+            if hr is not None:
+                return hr
         if isinstance(a, VGlobal) and isinstance(b, VGlobal) and op == "|":
             return [Res("val", VGlobal(f"{a.text} | {b.text}"), s)]
         v = arith.binop(op, a, b, lambda k, c: sides.append((k, c)))
